@@ -521,6 +521,14 @@ macro_rules! dil_api {
                 let pk = api::PublicKey::from_bytes(bytes(&$a[0]));
                 Some(vec![oint(pk.verify(bytes(&$a[1]), bytes(&$a[2])) as i32)])
             }
+            "kp_api_sign" => {
+                let kp = api::Keypair::from_bytes(bytes(&$a[0]));
+                Some(vec![obytes(&kp.sign(bytes(&$a[1])))])
+            }
+            "kp_api_verify" => {
+                let kp = api::Keypair::from_bytes(bytes(&$a[0]));
+                Some(vec![oint(kp.verify(bytes(&$a[1]), bytes(&$a[2])) as i32)])
+            }
             _ => containers!($f, $a, $m),
         }
     }};
@@ -557,6 +565,19 @@ macro_rules! ml_api {
             "ml_verify" => {
                 let pk = api::PublicKey::from_bytes(bytes(&$a[0]));
                 Some(vec![oint(pk.verify(bytes(&$a[1]), bytes(&$a[2]), octx(&$a[3])) as i32)])
+            }
+            // the same through the Keypair wrappers (deterministic signing only: no tape needed)
+            "kp_ml_sign" => {
+                let kp = api::Keypair::from_bytes(bytes(&$a[0]));
+                let r = if int(&$a[3]) == 0 { kp.sign(bytes(&$a[1]), octx(&$a[2]), false) }
+                        else { kp.prehash_sign(bytes(&$a[1]), octx(&$a[2]), false, ph(&Arg::Int(int(&$a[3]) - 1))) };
+                match r { Some(s) => Some(vec![oint(1), obytes(&s)]), None => Some(vec![oint(0), obytes(&[])]) }
+            }
+            "kp_ml_verify" => {
+                let kp = api::Keypair::from_bytes(bytes(&$a[0]));
+                let r = if int(&$a[4]) == 0 { kp.verify(bytes(&$a[1]), bytes(&$a[2]), octx(&$a[3])) }
+                        else { kp.prehash_verify(bytes(&$a[1]), bytes(&$a[2]), octx(&$a[3]), ph(&Arg::Int(int(&$a[4]) - 1))) };
+                Some(vec![oint(r as i32)])
             }
             "ml_prehash_verify" => {
                 let pk = api::PublicKey::from_bytes(bytes(&$a[0]));
